@@ -1,0 +1,7 @@
+//go:build !verif
+
+package cqueue
+
+// verifPoint is a schedule point used by the verification harness (build tag verif).
+// Without the tag it is an empty function.
+func verifPoint(site int, obj any) {}
